@@ -146,8 +146,8 @@ def main():
         'roots': {k: {'fn': r['root'], 'abstract_paths': len(r['exits']), 'abort_sites': len(r.get('aborts', [])), 'steps': r.get('steps')} for k, r in roots.items()},
         'samples': eng.samples[:12] or [{'note': 'no sample recorded'}],
         'exhaustive': not summ.get('budget_hit', False),
-        'bounds': {'inlining': 'complete (crate has no recursion)', 'loop_iterations_unrolled': 3,
-                   'note': 'all CFG paths are enumerated; the only bound is the unrolling of the address-validation / bid-conversion loops, whose obligations are stated per iteration'},
+        'bounds': {'inlining': 'complete (crate has no recursion)', 'loop_head_visits': 3, 'loop_iterations_completed': '0, 1 and 2',
+                   'note': 'all CFG paths are enumerated; the only bound is the unrolling of the address-validation / bid-conversion loops (a loop head is entered at most 3 times, so paths with 0, 1 and 2 completed iterations exist), whose obligations are stated per iteration'},
         'checker_cmd': './check %s --tier %s' % (prop, tier),
         'trusted_base': info.get('trusted_base', []),
         'extraction': {'cached': meta['cached'], 'tree_hash': meta['hash'], 'profile': 'dev'},
